@@ -467,13 +467,18 @@ class _Constant(StandardNode):
         elif key == "value_int":
             value = np.array(raw, dtype=np.int64)
         elif key == "value_string":
-            value = np.array(raw, dtype=np.str_)
+            value = np.array(
+                raw.decode("utf-8") if isinstance(raw, bytes) else raw, dtype=np.str_
+            )
         elif key == "value_floats":
             value = np.array(list(raw), dtype=np.float32).reshape(-1)
         elif key == "value_ints":
             value = np.array(list(raw), dtype=np.int64).reshape(-1)
         elif key == "value_strings":
-            value = np.array(list(raw), dtype=np.str_).reshape(-1)
+            value = np.array(
+                [s.decode("utf-8") if isinstance(s, bytes) else s for s in raw],
+                dtype=np.str_,
+            ).reshape(-1)
         elif key == "sparse_value":
             return {}
         else:
